@@ -71,7 +71,7 @@ inductive W where
   | none
   | dead                                   -- after a panic: nothing more is compared
   | sl (s : SimpleList.St) (n : Nat)       -- model state; item count tracked by the oracle
-  | pg (s : Pager.St) (lastW : Int) (fresh : Bool)   -- oracle: width of last layout, lines fresh
+  | pg (s : Pager.St) (lastW : Int) (fresh : Bool) (ioff : Int)   -- oracle: width of last layout, lines fresh, the offset the IMPLEMENTATION reported last
   | dl (cfg : DynList.Cfg) (hs : List Nat) (s : DynList.St) (selChanged scrolled : Bool)
      -- oracle flags: selection changed / scrolled or items replaced since the last Draw
 
@@ -176,6 +176,29 @@ def pgRows (rs : List (List (Option Pager.Ch))) : String :=
 def parseLines (s : String) : List (List String) :=
   if s = "-" then [] else (s.splitOn "/").map fun l => if l = "_" then [] else l.splitOn "."
 
+/-- Oracle, line breaks ("wraps AT the window width"): walking the text along the reported lines, a line ends only at a
+    newline character, at the end of the text, or when its width has reached the window width; an empty line stands for a
+    newline met with nothing pending.  `none` = fine. -/
+def pgBreaks (width : Int) : List Pager.Ch → List (List String) → Option String
+  | [], [] => Option.none
+  | _ :: _, [] => some "FAIL text left over after the last line"
+  | rest, l :: ls =>
+    let cs := rest.take l.length
+    let rest' := rest.drop l.length
+    if cs.length ≠ l.length ∨ cs.any (·.isNl) then some "FAIL a line runs across a newline or the end of the text"
+    else if l.isEmpty then
+      match rest' with
+      | c :: r => if c.isNl then pgBreaks width r ls else some "FAIL an empty line where the text has no newline"
+      | [] => some "FAIL an empty line where the text has no newline"
+    else if (cs.map (·.width)).foldl (· + ·) 0 ≥ width then pgBreaks width rest' ls
+    else
+      match rest' with
+      | [] => pgBreaks width [] ls
+      | c :: r =>
+        if c.isNl then pgBreaks width r ls
+        else some s!"FAIL a line is broken before the window width {width} is reached (line of {l.length} characters)"
+termination_by _ ls => ls.length
+
 /-- Oracle, completeness: the lines concatenated are the text without the newline characters;
     every line is at most one character or all but its last character are narrower than the width. -/
 def pgCompleteVerdict (text : List Pager.Ch) (width : Int) (lines : List (List String)) : String :=
@@ -186,7 +209,10 @@ def pgCompleteVerdict (text : List Pager.Ch) (width : Int) (lines : List (List S
     let wOf (h : String) : Int := match text.find? (fun c => hexOfBytes c.bytes = h) with
       | some c => c.width | Option.none => 1
     let tooWide := lines.any fun l => l.length > 1 ∧ (l.dropLast.map wOf).foldl (· + ·) 0 ≥ width
-    if tooWide then s!"FAIL a line exceeds the width {width}" else "ok"
+    if tooWide then s!"FAIL a line exceeds the width {width}" else
+    match pgBreaks width text lines with
+    | some msg => msg
+    | Option.none => "ok"
 
 def pgOffVerdict (nlines : Nat) (h : Nat) (off : Int) : String :=
   let mx : Int := if (nlines : Int) - h > 0 then (nlines : Int) - h else 0
@@ -226,11 +252,17 @@ def pgScrollVerdict (before : Int) (delta : Int) (impl : String) : String :=
   | some o => if o = before + delta then "ok" else s!"FAIL scrolling by one line moved the offset from {before} to {o}"
   | Option.none => "FAIL Scroll panicked or unparsable result"
 
-def pgStep (s : Pager.St) (lastW : Int) (fresh : Bool) (op : List String) (impl : String) : W × String :=
+/-- The offset the implementation reports in `impl` (`off=O`), else `dflt`. -/
+def implOff (impl : String) (dflt : Int) : Int :=
+  match (kv "off" (fields impl)).bind (·.toInt?) with
+  | some o => o
+  | Option.none => dflt
+
+def pgStep (s : Pager.St) (lastW : Int) (fresh : Bool) (ioff : Int) (op : List String) (impl : String) : W × String :=
   match op with
   | "text" :: toks =>
     match (toks.filter (· ≠ "|")).mapM parseTok with
-    | some cs => (.pg (Pager.setText s cs) lastW false, "-\t-\t-")
+    | some cs => (.pg (Pager.setText s cs) lastW false ioff, "-\t-\t-")
     | Option.none => (.dead, bad)
   | ["layout"] =>
     let s' := Pager.relayout flush s
@@ -238,7 +270,7 @@ def pgStep (s : Pager.St) (lastW : Int) (fresh : Bool) (op : List String) (impl 
     let v := match kv "lines" (fields impl) with
       | some l => pgCompleteVerdict s.text lastW (parseLines l)
       | Option.none => "FAIL Layout panicked or unparsable result"
-    (.pg s' lastW true, s!"{mc}\t{impl}\t{v}")
+    (.pg s' lastW true ioff, s!"{mc}\t{impl}\t{v}")
   | ["draw", w, h] =>
     match w.toNat?, h.toNat? with
     | some w, some h =>
@@ -252,20 +284,20 @@ def pgStep (s : Pager.St) (lastW : Int) (fresh : Bool) (op : List String) (impl 
           let ls := parseLines l
           combine [ (if fresh' then pgCompleteVerdict s.text w ls else "ok"),
                     pgOffVerdict ls.length h o,
-                    pgClampVerdict s.offset ls.length h o,
+                    pgClampVerdict ioff ls.length h o,
                     pgRowsVerdict s.text w h o ls (parseLines r) ]
         | _, _, _ => "FAIL Draw panicked or unparsable result"
-      (.pg s' w fresh', s!"{mc}\t{impl}\t{v}")
+      (.pg s' w fresh' (implOff impl ioff), s!"{mc}\t{impl}\t{v}")
     | _, _ => (.dead, bad)
   | ["down"] =>
     let s' := Pager.scrollDown s
-    (.pg s' lastW fresh, s!"off={s'.offset}{pgInterp WidExec.genB.pagerScrollDown s 0 0 s' Option.none}\t{impl}\t{pgScrollVerdict s.offset 1 impl}")
+    (.pg s' lastW fresh (implOff impl (ioff + 1)), s!"off={s'.offset}{pgInterp WidExec.genB.pagerScrollDown s 0 0 s' Option.none}\t{impl}\t{pgScrollVerdict ioff 1 impl}")
   | ["up"] =>
     let s' := Pager.scrollUp s
-    (.pg s' lastW fresh, s!"off={s'.offset}{pgInterp WidExec.genB.pagerScrollUp s 0 0 s' Option.none}\t{impl}\t{pgScrollVerdict s.offset (-1) impl}")
+    (.pg s' lastW fresh (implOff impl (ioff - 1)), s!"off={s'.offset}{pgInterp WidExec.genB.pagerScrollUp s 0 0 s' Option.none}\t{impl}\t{pgScrollVerdict ioff (-1) impl}")
   | ["off", k] =>
     match k.toInt? with
-    | some k => (.pg { s with offset := k } lastW fresh, s!"off={k}\t{impl}\t-")
+    | some k => (.pg { s with offset := k } lastW fresh (implOff impl k), s!"off={k}\t{impl}\t-")
     | Option.none => (.dead, bad)
   | _ => (.dead, bad)
 
@@ -465,8 +497,8 @@ def step (w : W) (line : String) : W × String :=
     | some n => (.sl (SimpleList.new n) n, s!"idx=0\t{impl}\t{match parseIdx impl with | some i => slIdxVerdict n i | _ => "FAIL"}")
     | Option.none => (.dead, bad)
   | .sl s n, "sl" :: rest => slStep s n rest impl
-  | .none, "pg" :: rest => pgStep Pager.init 0 false rest impl
-  | .pg s lw fr, "pg" :: rest => pgStep s lw fr rest impl
+  | .none, "pg" :: rest => pgStep Pager.init 0 false 0 rest impl
+  | .pg s lw fr io, "pg" :: rest => pgStep s lw fr io rest impl
   | w, "sb" :: rest => (w, sbStep rest impl)
   | .none, ["dl", "new", gap, dc, h] =>
     match gap.toInt?, heights? h with
